@@ -663,4 +663,20 @@ theorem augmentLoop_eq (reg : Registry) (fuel : Nat) (mods : Array Nat) (s : PSt
         intro id' a ha
         exact hp id' a (augmentPassR_pending_sub _ _ _ _ _ _ _ id' a ha)
 
+theorem augmentLoopR_pending_sub (R : Res) (fuel : Nat) (mods : Array Nat) (s : PState) (tr : List Ev) (id' : Nat) :
+    ∀ a ∈ ((augmentLoopR R fuel mods s tr).2.1).pendingOf id', a ∈ s.pendingOf id' := by
+  induction fuel generalizing mods s tr with
+  | zero => intro a ha; exact ha
+  | succ fuel ih =>
+    unfold augmentLoopR
+    by_cases he : mods.isEmpty = true
+    · simp only [he, if_true]; intro a ha; exact ha
+    · simp only [he, Bool.false_eq_true, if_false]
+      by_cases h0 : ((augmentPassR R (mods.size + 1) mods 0 0 s tr).2.1 == 0) = true
+      · simp only [h0, if_true]
+        exact augmentPassR_pending_sub R _ _ _ _ _ _ id'
+      · simp only [h0, Bool.false_eq_true, if_false]
+        intro a ha
+        exact augmentPassR_pending_sub R _ _ _ _ _ _ id' a (ih _ _ _ a ha)
+
 end Goyang.Lemmas.AugmentModel
